@@ -73,6 +73,9 @@ CASES = [
     # --- function replacers
     ("function-replacer", "C20-08-function-replacer", M("replace", "(b)(x)?", "g", "abcb", F(["s", "$&"], c20.tnum(1.5)))),
     ("function-replacer-empty-matches", "C20-08-function-replacer", M("replaceAll", "a*", "g", "baa", F(U, ["N"], ["raw", "[1,2]", "1,2"]))),
+    ("function-replacer-throws-after-matching", "C20-08-function-replacer", M("replace", "a", "g", "aa", F(["s", "x"], ["throw"]), N(1))),
+    # --- exec() / test() without an argument
+    ("exec-missing-argument", "C20-09-exec-missing-argument", H(".", "g", ["a"], [["exec", None], ["test", None]])),
 ]
 
 
